@@ -142,7 +142,9 @@ def twin(exe, root, seed, stats):
     npop = 2 + rng.below(3)
     both(lambda s: s.populate(npop))
     for step in range(5 + rng.below(4)):
-        rr = [s.sync(*(lim if s.arr.splits > 1 else [])) for s in sims]
+        # sequential disk scan: with scan threads the copy detection of a file whose source is deleted in the same scan
+        # depends on thread order (known finding C13-scan-copy-race) and the twins could allocate differently
+        rr = [s.sync(*(lim if s.arr.splits > 1 else []), opts=e2e.BASE_OPTS + ['--test-skip-multi-scan']) for s in sims]
         rcs = [r.rc for r in rr]
         if rcs[1] != 0 and ('lack of space' in rr[1].out or 'Failed to allocate' in rr[1].out or 'Failed to grow' in rr[1].out):
             stats['out_of_space'] = stats.get('out_of_space', 0) + 1
